@@ -2,6 +2,7 @@
 import ast
 from ..core import Result
 from ..pm import AnalysisError, unparse
+from ..match import Code
 from ..paths import paths, annotate, callee_names, call_attr
 from ..rat import (Ev, Rat, Sym, Poly, fn_eval, rat_eq, Inconclusive, ONE,
                    ZERO, const_of)
@@ -792,7 +793,7 @@ def trace_order(ctx):
                    f'{" (terminal surface: no globalize needed)" if terminal else ""}')
     # dispatch on ray type
     d = P.func('Surface.trace')
-    src = unparse(d.node, 3000)
+    src = Code(P, d)
     if 'isinstance(rays, ParaxialRays)' in src and '_trace_paraxial' in src \
             and 'isinstance(rays, RealRays)' in src and '_trace_real' in src:
         res.ok('Surface.trace dispatches ParaxialRays/RealRays')
